@@ -17,6 +17,7 @@ package c07
 
 import (
 	"bytes"
+	"encoding/json"
 	"fmt"
 	"os"
 	"path/filepath"
@@ -282,10 +283,10 @@ func Run(c *core.Ctx) core.FinishOpts {
 		}
 		cases = keep
 	}
-	if c.Only != "" {
+	if only := onlyID(c); only != "" {
 		var keep []*qcase
 		for _, q := range cases {
-			if q.id == c.Only {
+			if q.id == only {
 				keep = append(keep, q)
 			}
 		}
@@ -529,4 +530,24 @@ func panicSite(res cli.Result) (string, string) {
 		return file + ":" + fn, msg
 	}
 	return site, msg
+}
+
+// onlyID returns the id of the single case to run: --only <id>, or the id stored in a --replay file.
+func onlyID(c *core.Ctx) string {
+	if c.Only != "" || c.Replay == "" {
+		return c.Only
+	}
+	data, err := os.ReadFile(c.Replay)
+	if err != nil {
+		return ""
+	}
+	var r struct {
+		Case struct {
+			ID string `json:"id"`
+		} `json:"case"`
+	}
+	if json.Unmarshal(data, &r) != nil {
+		return ""
+	}
+	return r.Case.ID
 }
